@@ -404,6 +404,55 @@ theorem from_objects_is_concept (K : Ctx) (A : List Nat) (hA : C01.InRange A K.n
   refine ⟨Spec.int_ext_int K.table A hA _, rfl, ?_, Spec.subset_ext_int K.table A hA _⟩
   exact (List.nodup_range).filter _
 
+/-- the way the object set is written down does not matter: two argument lists with the same members
+    (repetitions, any order — nothing but in-range indexes is assumed of them) give the very same concept,
+    whose extent is duplicate-free. -/
+theorem from_objects_repetition_invariant (K : Ctx) (hwf : K.table.WF)
+    (hobj : K.objNames.length = K.nObjects) (hattr : K.attrNames.length = K.nAttributes)
+    (A A' : List Nat) (hA : C01.InRange A K.nObjects) (hA' : C01.InRange A' K.nObjects)
+    (hsame : ∀ g, g ∈ A ↔ g ∈ A') (h : Int) :
+    Concept.fromObjects (.idx A) K h false false = Concept.fromObjects (.idx A') K h false false ∧
+    ∃ c, Concept.fromObjects (.idx A) K h false false = .ok c ∧ c.extentI.Nodup := by
+  have hint : Spec.int K.table A (List.range K.nAttributes) = Spec.int K.table A' (List.range K.nAttributes) := by
+    unfold Spec.int
+    apply List.filter_congr
+    intro a _
+    rw [Bool.eq_iff_iff]
+    simp only [List.all_eq_true]
+    exact ⟨fun H g hg => H g ((hsame g).mpr hg), fun H g hg => H g ((hsame g).mp hg)⟩
+  have h1 := from_objects_closure K hwf hobj hattr A hA h false
+  have h2 := from_objects_closure K hwf hobj hattr A' hA' h false
+  simp only [Bool.false_eq_true, ↓reduceIte] at h1 h2
+  refine ⟨by rw [h1, h2, hint], _, h1, ?_⟩
+  exact (List.nodup_range).filter _
+
+/-- (history) `from_objects` stamps the hash the context has AT THE TIME OF THE CALL (`h` = `K.hash_fixed()`
+    then): two concepts derived while the context had different hashes — e.g. before and after an in-place
+    change of the context object — are refused by `==`, `<=`, `<`; two concepts derived (with
+    `is_extent=False`) while it had the same hash are comparable and ordered by extent inclusion. -/
+theorem from_objects_context_identity (K K' : Ctx) (h h' : Int) (objs objs' : ObjArg) (ie ie' : Bool)
+    (c c' : Concept) (hc : Concept.fromObjects objs K h ie false = .ok c)
+    (hc' : Concept.fromObjects objs' K' h' ie' false = .ok c') :
+    (h ≠ h' → Concept.eq c c' = .error .UnmatchedContextError ∧ Concept.le c c' = .error .UnmatchedContextError ∧
+               Concept.lt c c' = .error .UnmatchedContextError) ∧
+    (h = h' → c.extentI.Nodup → c'.extentI.Nodup → Concept.le c c' = .ok (decide (c.extentI ⊆ c'.extentI))) := by
+  have fields : ∀ (o : ObjArg) (K : Ctx) (h : Int) (ie : Bool) (c : Concept),
+      Concept.fromObjects o K h ie false = .ok c → c.contextHash = some h ∧ c.isMonotone = false := by
+    intro o K h ie c hc
+    simp only [Concept.fromObjects, Bool.false_eq_true, ↓reduceIte, bind, Except.bind, pure, Except.pure] at hc
+    repeat' split at hc
+    all_goals first | (cases hc; exact ⟨rfl, rfl⟩) | cases hc
+  obtain ⟨e1, m1⟩ := fields _ _ _ _ _ hc
+  obtain ⟨e2, m2⟩ := fields _ _ _ _ _ hc'
+  constructor
+  · intro hne
+    have := cross_context_refused c c' (by rw [e1, e2]; intro e; exact hne (Option.some.inj e))
+    exact ⟨this.1, this.2.2.1, this.2.2.2.1⟩
+  · intro heq nd nd'
+    have := le_iff_extent_subset c c' ⟨by rw [e1, e2, heq], by rw [m1, m2], nd, nd'⟩
+    rw [this]
+    simp [ExtLe, m1]
+
 /-- `is_monotone=True` is refused by `from_objects` -/
 theorem from_objects_monotone_refused (objects : ObjArg) (K : Ctx) (h : Int) (isExtent : Bool) :
     Concept.fromObjects objects K h isExtent true = .error .AssertionError := by
